@@ -62,7 +62,9 @@ func runC12(c *Ctx) {
 	c.Rule("C12.O2", "E9", "header bit masks: byte0 FIN 0x80 RSV1 0x40 RSV2 0x20 RSV3 0x10 opcode 0x0F, byte1 MASK 0x80 length 0x7F; decoded bits reach opcode/fin/compress and validFrame in the right positions", 2)
 	c.Rule("C12.O3", "E4,E2-escape", "client: mask bit set, key in the 4 bytes before the payload, maskXOR on the frame buffer only, caller's data only read; decoder: unmask only on the frame-complete edge; afterwards the frame is consumed or an error is set", 3)
 	c.Rule("C12.O4", "E4", "WriteMessage fragmentation: opcode and compression bit only on the first fragment, FIN iff n==len(rest), n<=MaxWebsocketFramePayloadSize, rest advances by n, empty message emits one FIN frame", 2)
+	c.Rule("C12.O6", "E4", "per-message compression: Conn.compress is taken from a frame's RSV1 only while no message is open (msgType == 0) and cleared on the FIN edge; every inflate is decided by that field, not by the current frame's bit (only the first fragment carries RSV1)", 2)
 	c.Rule("C12.O5", "E4", "reassembly: tail append; msgType assigned only while 0; reset on FIN; control frames leave message alone; the hand-off is decided by a flag set on the FIN edge, not by the buffer being non-nil", 4)
+	c12CompressFlag(c)
 
 	wf := c.Fn("C12.O1", "(*websocket.Conn).writeFrame")
 	nf := c.Fn("C12.O1", "(*websocket.Conn).nextFrame")
@@ -1005,4 +1007,57 @@ func cellOf(v ssa.Value) ssa.Value {
 		return nil
 	}
 	return ir.Root(ld.X)
+}
+
+// c12CompressFlag: O6.
+func c12CompressFlag(c *Ctx) {
+	parse := c.Fn("C12.O6", "(*websocket.Conn).Parse")
+	if parse == nil {
+		return
+	}
+	const fCompress = "websocket.Conn.compress"
+	const fMsgType = "websocket.Conn.msgType"
+	bad := ""
+	nSet, nClr := 0, 0
+	for _, f := range ir.WithClosures(parse) {
+		fi := c.P.Info(f)
+		for _, st := range c.P.StoresTo(f, fCompress) {
+			if k, ok := ir.ConstBool(st.Val); ok && !k {
+				nClr++
+				continue
+			}
+			nSet++
+			if !fi.HasFact(st, func(ft ir.Fact) bool {
+				cmp, ok := ir.DecodeIntCmp(ft.Cond)
+				return ok && c.P.LoadedField(cmp.Expr) == fMsgType && cmp.Holds(0) == ft.Truth && !cmp.Holds(1) == ft.Truth
+			}) {
+				bad = "the per-message compression flag is overwritten at " + c.Pos(st) + " while a message is open: continuation frames carry RSV1 = 0"
+			}
+		}
+	}
+	if nSet == 0 || nClr == 0 {
+		bad = fmt.Sprintf("expected the flag to be taken from the first frame and cleared on FIN (stores: %d set, %d clear)", nSet, nClr)
+	}
+	c.Cond(bad == "", "C12.O6", fnKey(c.P, parse, "flag set on the first frame, cleared on FIN"), c.FnPos(parse), fmt.Sprintf("%d set under msgType == 0, %d clear", nSet, nClr), bad)
+
+	bad = ""
+	n := 0
+	for _, f := range ir.WithClosures(parse) {
+		fi := c.P.Info(f)
+		for _, cs := range c.P.Calls(f, func(name string, _ ir.CallSite) bool {
+			return name == "(*websocket.Conn).readAll" || name == "websocket.decompressReader" || name == "dyn:nbhttp.Engine.WebsocketDecompressor" || name == "dyn:websocket.Conn.WebsocketDecompressor"
+		}) {
+			n++
+			if !fi.HasFact(cs.In, func(ft ir.Fact) bool {
+				k, set, ok := c.P.BoolFieldTest(ft.Cond, ft.Truth)
+				return ok && k == fCompress && set
+			}) {
+				bad = "the inflate step at " + c.Pos(cs.In) + " is not decided by the per-message flag Conn.compress: decided by the last frame's RSV1 bit, a fragmented compressed message is delivered as raw deflate bytes"
+			}
+		}
+	}
+	if n == 0 && bad == "" {
+		bad = "no inflate step found"
+	}
+	c.Cond(bad == "", "C12.O6", fnKey(c.P, parse, "inflate iff the message is compressed"), c.FnPos(parse), fmt.Sprintf("%d inflate call(s) behind Conn.compress", n), bad)
 }
